@@ -673,6 +673,8 @@ namespace detail
         const char* v = "terminated:signal";
         if (sig == SIGPROF)
             v = "hang:cpu-watchdog";
+        else if (sig == SIGALRM)
+            v = "hang:wall-clock-watchdog";
         else if (sig == SIGSEGV)
             v = "terminated:SIGSEGV";
         else if (sig == SIGABRT)
@@ -684,7 +686,7 @@ namespace detail
         else if (sig == SIGILL)
             v = "terminated:SIGILL";
         dump_death(v);
-        if (sig == SIGPROF)
+        if (sig == SIGPROF || sig == SIGALRM)
             ::_exit(3);
         ::signal(sig, SIG_DFL);
         ::raise(sig);
@@ -747,6 +749,7 @@ inline void install_death_handlers()
     sigemptyset(&sa.sa_mask);
     sa.sa_flags = 0;
     sigaction(SIGPROF, &sa, nullptr);
+    sigaction(SIGALRM, &sa, nullptr);
     sigaction(SIGABRT, &sa, nullptr);
 #if !defined(__SANITIZE_ADDRESS__) && !defined(VF_ASAN)
     sa.sa_flags = SA_ONSTACK;
@@ -783,8 +786,23 @@ inline void arm_watchdog(double cpu_seconds)
     setitimer(ITIMER_PROF, &it, nullptr);
 }
 
+// wall-clock budget, for cases whose failure mode is a deadlock (blocked threads use no CPU time); only
+// harnesses with threads arm it, with a budget far above anything machine load can explain
+inline void arm_wall_watchdog(int seconds)
+{
+    struct itimerval it;
+    std::memset(&it, 0, sizeof it);
+    it.it_value.tv_sec = seconds;
+    setitimer(ITIMER_REAL, &it, nullptr);
+}
+
 inline void disarm_watchdog()
 {
+    {
+        struct itimerval real;
+        std::memset(&real, 0, sizeof real);
+        setitimer(ITIMER_REAL, &real, nullptr);
+    }
     struct itimerval it;
     std::memset(&it, 0, sizeof it);
     setitimer(ITIMER_PROF, &it, nullptr);
